@@ -1,5 +1,6 @@
 import DarkluaModel.C17.Lemmas
 import DarkluaModel.C17.Whole
+import DarkluaModel.C17.WholeAssert
 /-!
 # C17 — removal and injection rules change exactly what they name: property theorems
 
@@ -680,13 +681,14 @@ this program the rule's run coincides with the run of the identifier-only proces
 (`Whole.processorVar`), i.e. no unshadowed `_G.NAME` / `_G["NAME"]` is rewritten — those shapes are
 outside stage 3: the original spends `indexVal` fuel and reads a table that no context fact describes.
 
-NOT obtained: `assert_refines_whole`, `profiling_refines_whole`. Stage 3 relates runs with IDENTICAL
-timeouts for every fuel `k` and call level, and its context facts fix the VALUES of watched globals.
-Removing a call changes fuel use (`assert(e)` times out at `k = 0` and on the last call level, `e`
-does not; `debug.profilebegin()` spends `indexVal` fuel), and "the value of `assert` hands its
-arguments back when called" is a property of the abstract call handler, not of a global's value. An
-up-to-timeout variant of stage 3 with facts about calling a watched global would be needed; the local
-theorems above stay the statement for these two rules, and for every program that shadows a name. -/
+`assert_refines_whole` (below, stage 3 with call facts, up to budget exhaustion of the input): see its section.
+NOT obtained: `profiling_refines_whole` (the callee `debug.profilebegin` is a FIELD of the watched global: the
+context has facts about the value of a global and about closures held by a global, none about the contents
+of a table), the `_G.NAME` shapes of injection (same reason), the `select(1, …)` form of remove_assertions
+(the OUTPUT spends library fuel the input does not: at `k = 1` the input succeeds and the output times out,
+and the up-to-timeout relation only excuses timeouts of the input), arguments whose dropping removes a
+table / closure allocation (stage 4 renumbers tables and closures but has no context). These are listed in
+`meta/C17.json` under `proof_gaps`. -/
 
 open Whole in
 theorem inject_refines_whole (ident : String) (value : Expr) (hl : isLit value = true) (b : Block)
@@ -736,5 +738,69 @@ example : ¬ NoRefB [.wat "DEBUG"] (.mk [.localAssign .loc [.mk "DEBUG" none] [.
   revert this
   decide
 end wholeExamples
+
+/-! ## whole-rule theorem for remove_assertions (stage 3 with call facts; up to budget exhaustion)
+
+In the modified environment `Demo.DropAssert.env0` (`assert` is closure 0 = `function(...) return ... end`),
+for EVERY program that never declares or assigns `assert` (closures, loops, any other shadowing allowed),
+every number system, oracle and call level: the output of the rule's own `apply` has the same observable
+outcome as the input, unless the input exhausts its budget. Side condition `hsame`: on this program the
+rule's run coincides with the run restricted to the rounds that have links (`WholeAssert.processorW`):
+expression position with exactly one argument (`assert(e)` → `e`, all values kept), statement position when
+every dropped argument is an atom and the kept ones are all calls (`assert(check(x), "msg")` → `check(x)`,
+`assert(ok)` → `do end`, nested calls through the F30 loop) or all non-calls (`assert(x == 1, "msg")` →
+`do local _ = x == 1 end`: the cell the output allocates is matched by nothing on the input side).
+Outside: zero arguments (F18), the `select` form, a MIX of kept calls and non-calls (the `local _` is in
+scope of the later calls, F36), dropped allocations (`assert(x, {})`). `c17.wholeassert` reports the two hypotheses per generated program. -/
+
+open WholeAssert Demo.DropAssert in
+theorem assert_refines_whole (b : Block) (hb : NoRefB [.wat "assert"] b)
+    (hsame : (RemoveAssertions.apply true b).1 = applyW b)
+    {N : NumOps} (ρ : ExtOracle N) (n : Nat) (externs : List String) :
+    observe (runChunk ρ n b (env0 externs : State N)) = .timeout ∨
+      observe (runChunk ρ n (RemoveAssertions.apply true b).1 (env0 externs))
+        = observe (runChunk ρ n b (env0 externs)) := by
+  rw [hsame]
+  exact applyW_refines b hb ρ n externs
+
+section wholeAssertExamples
+open WholeAssert
+/-- `local function chk(x) assert(x, "msg"); assert(valid(x), fmt(x)); return assert(x) end;
+    assert(assert(chk(1))); emit(assert(get()))` -/
+def asample : Block :=
+  .mk [.localFn .loc "chk" (.mk [.mk "x" none] false none none [] []
+         (.mk [.callStmt (.call (.var "assert") none .tuple [.var "x", .str [109]]),
+               .callStmt (.call (.var "assert") none .tuple
+                 [.call (.var "valid") none .tuple [.var "x"], .call (.var "fmt") none .tuple [.var "x"]])]
+              (some (.ret [.call (.var "assert") none .tuple [.var "x"]])))),
+       .callStmt (.call (.var "assert") none .tuple
+         [.call (.var "assert") none .tuple [.call (.var "chk") none .tuple [.num 1]]]),
+       .callStmt (.call (.var "emit") none .tuple
+         [.call (.var "assert") none .tuple [.call (.var "get") none .tuple []]])] none
+
+-- non-vacuity: the hypotheses hold and every targeted call is rewritten
+example : NoRefB [.wat "assert"] asample := NoRefB.ofBool rfl
+def asampleOut : Block :=
+  .mk [.localFn .loc "chk" (.mk [.mk "x" none] false none none [] []
+         (.mk [.doBlock (.mk [] none),
+               .doBlock (.mk [.callStmt (.call (.var "valid") none .tuple [.var "x"]),
+                              .callStmt (.call (.var "fmt") none .tuple [.var "x"])] none)]
+              (some (.ret [.var "x"])))),
+       .callStmt (.call (.var "chk") none .tuple [.num 1]),
+       .callStmt (.call (.var "emit") none .tuple [.call (.var "get") none .tuple []])] none
+theorem asample_apply : (RemoveAssertions.apply true asample).1 = asampleOut := by rfl
+theorem asample_applyW : applyW asample = asampleOut := by rfl
+example : (RemoveAssertions.apply true asample).1 = applyW asample := asample_apply.trans asample_applyW.symm
+-- the kept-non-call shape: `assert(t.x, "m")` → `do local _ = t.x end`, inside the side condition
+example : applyW (.mk [.callStmt (.call (.var "assert") none .tuple [.field (.var "t") "x", .str [109]])] none)
+    = .mk [.doBlock (.mk [.localAssign .loc [.mk "_" none] [.field (.var "t") "x"]] none)] none := by rfl
+example : (RemoveAssertions.apply true (.mk [.callStmt (.call (.var "assert") none .tuple [.field (.var "t") "x", .str [109]])] none)).1
+    = .mk [.doBlock (.mk [.localAssign .loc [.mk "_" none] [.field (.var "t") "x"]] none)] none := by rfl
+-- outside the side condition: the `select` form is left alone by the restricted run
+example : applyW (.mk [] (some (.ret [.call (.var "assert") none .tuple [.var "a", .var "b"]])))
+    = .mk [] (some (.ret [.call (.var "assert") none .tuple [.var "a", .var "b"]])) := by rfl
+example : (RemoveAssertions.apply true (.mk [] (some (.ret [.call (.var "assert") none .tuple [.var "a", .var "b"]])))).1
+    = .mk [] (some (.ret [.call (.var "select") none .tuple [.num RemoveAssertions.oneBits, .var "a", .var "b"]])) := by rfl
+end wholeAssertExamples
 
 end DarkluaModel.C17
